@@ -273,8 +273,13 @@ func e1Specs(prop, tier string) []engines.E1Spec {
 		if tier != "quick" {
 			max, depth = 3, 2
 		}
+		subsets := engines.WSubsets(names, max)
 		for i, setup := range engines.WSetups(names, max) {
-			out = append(out, engines.E1Spec{Name: fmt.Sprintf("W%d/none/rs20", i), Cfg: cfgNone, Setup: setup, Alphabet: engines.WAlphabet(names), Depth: depth, Oracles: or})
+			// the calls range over the names that exist in this initial state plus two that do not (one of them a name that a
+			// LIKE pattern of an existing name would match)
+			present := append([]string{}, subsets[i]...)
+			al := engines.WAlphabet(append(present, "zz", "aXb"))
+			out = append(out, engines.E1Spec{Name: fmt.Sprintf("W%d%v/none/rs20", i, subsets[i]), Cfg: cfgNone, Setup: setup, Alphabet: al, Depth: depth, Oracles: or})
 		}
 		return out
 	}
@@ -698,7 +703,7 @@ func runC08(rep *engines.Report, p *pool.Pool, tier string) int {
 	rep.Coverage["headers_accepted_and_checked"] = accepted
 	rep.Coverage["rebuilds_that_reported_an_error"] = dropped
 	rep.Coverage["exhaustive"] = skipped == 0
-	rep.Coverage["rule"] = "per pipeline: a tape written by the real write path (dir, files, content update, rename, header-shaped payload, delete) while recording every header the writer signed and the content signed under each; alterations: policy 'all' = every byte position x {b^0x01, b^0x80, 0x00}; 'quick' = every non-zero byte and every third zero byte of header/PAX blocks and every 7th payload byte; 'forge' = the structured forgery list per record (edited embedded header with kept/removed/empty/non-base64/garbage/wrong-packet signature, re-encoded header, swapped signatures, second key, outer size, replaced payload, appended plain/half-wrapped records). Each altered tape is rebuilt with the real verify callbacks; every accepted header must equal a signed one, every restorable file must return the content signed under its header. distinct_nontrivial = distinct (pipeline, record kind, part of the record / forgery)."
+	rep.Coverage["rule"] = "per pipeline: a tape written by the real write path (dir, files, content update, rename, header-shaped payload, delete) while recording every header the writer signed and the content signed under each; alterations: policy 'all' = every byte position x {b^0x01, b^0x80, 0x00}; 'quick' = every second non-zero byte and every fifth zero byte of header/PAX blocks and every 16th payload byte; 'forge' = the structured forgery list per record (edited embedded header with kept/removed/empty/non-base64/garbage/wrong-packet signature, re-encoded header, swapped signatures, second key, outer size, replaced payload, appended plain/half-wrapped records). Each altered tape is rebuilt with the real verify callbacks; every accepted header must equal a signed one, every restorable file must return the content signed under its header. distinct_nontrivial = distinct (pipeline, record kind, part of the record / forgery)."
 	rep.Assumptions = []string{"single alteration per tape", "structured forgeries only on unencrypted tapes (encrypted ones are covered by byte alterations)", "tape = regular file"}
 	if skipped > 0 {
 		rep.Notes = append(rep.Notes, fmt.Sprintf("budget reached: %d of %d batches not executed", skipped, len(jobs)))
